@@ -26,6 +26,9 @@ pub enum SOp {
     RemoveLive(u16),
     ReadLive(u16),
     TableInsert(u8),
+    /// create / drop a table whose name is also used for streams
+    TableCreate(u8),
+    TableDrop(u8),
     AddSignature(bool),
     RemoveSignature,
     Reopen(u8),
@@ -62,7 +65,7 @@ fn must_accept(name: &str) -> bool {
 
 pub fn fixed_names() -> Vec<String> {
     let mut v: Vec<String> = [
-        "a", "A", "Binary.a", "Icon.AppIcon.ico", "_x", "0", "00", "a b", "a-b", "(x)", "$", "¿Qué pasa?", "é", "É", "ñ", "日本", "日本語.cab", "\u{3800}", "\u{3801}", "\u{47ff}", "\u{4800}",
+        "a", "A", "Binary.a", "Binary", "Icon", "Z9", "Icon.AppIcon.ico", "_x", "0", "00", "a b", "a-b", "(x)", "$", "¿Qué pasa?", "é", "É", "ñ", "日本", "日本語.cab", "\u{3800}", "\u{3801}", "\u{47ff}", "\u{4800}",
         "\u{483f}", "\u{4840}", "\u{4840}X", "X\u{4840}", "\u{4841}", "/", "/X", "X/", "a/b", "a/../X", "..", ".", "./X", "a\\b", "a:b", ":", "a!b", "!", "\0", "a\0b", "\u{5}SummaryInformation",
         "\u{5}DigitalSignature", "\u{5}MsiDigitalSignatureEx", "\u{5}DocumentSummaryInformation", "_StringPool", "_StringData", "_Tables", "_Columns", "T1", "", " ", "straße", "STRASSE", "ǆ", "ǅ",
         "\u{10000}", "😀", "\u{fffd}", "\u{feff}x",
@@ -109,6 +112,8 @@ fn op_strategy() -> impl Strategy<Value = SOp> {
         4 => any::<u16>().prop_map(SOp::RemoveLive),
         3 => any::<u16>().prop_map(SOp::ReadLive),
         2 => any::<u8>().prop_map(SOp::TableInsert),
+        2 => any::<u8>().prop_map(SOp::TableCreate),
+        2 => any::<u8>().prop_map(SOp::TableDrop),
         1 => any::<bool>().prop_map(SOp::AddSignature),
         1 => Just(SOp::RemoveSignature),
         3 => any::<u8>().prop_map(SOp::Reopen),
@@ -350,6 +355,20 @@ pub fn check_case(case: &Case, st: &mut Stats) -> Check {
                 s.pkg.insert_rows(Insert::into("T1").row(vec![Value::Int(key), Value::Str(text.clone())])).map_err(|e| Fail::new(format!("{P} unexpected-error op=Insert"), e.to_string()))?;
                 s.table_rows.push(vec![V::Int(key), V::Str(text)]);
                 s.table_rows.sort();
+            }
+            SOp::TableCreate(k) | SOp::TableDrop(k) => {
+                let name = ["Binary", "Icon", "Z9", "A"][(*k % 4) as usize];
+                let create = matches!(&resolved, SOp::TableCreate(_));
+                s.trace.push(format!("{}({name})", if create { "create_table" } else { "drop_table" }));
+                // Ok or Err (exists / does not exist) are both fine; streams must not be affected
+                let _ = guard("table op", &s.trace, || {
+                    if create {
+                        s.pkg.create_table(name, vec![Column::build("k").primary_key().int16(), Column::build("v").nullable().string(0)]).and_then(|_| s.pkg.insert_rows(Insert::into(name).row(vec![Value::Int(1), Value::from(name)])))
+                    } else {
+                        s.pkg.drop_table(name)
+                    }
+                })?;
+                st.class(if create { "table-created" } else { "table-dropped" });
             }
             SOp::AddSignature(with_ex) => {
                 // sign the saved file through the container, as a signing tool would
